@@ -41,7 +41,8 @@ TStep      == /\ IsEvent("step") /\ UNCHANGED givars
 \* the cast returned exactly L1 + 1 cells, and the same cells as a freshly constructed caster
 TEndCast   == /\ IsEvent("endCast") /\ UNCHANGED <<givars, rcvars>>
               /\ (IF ~active THEN FALSE ELSE k = L1) /\ Tr[l].n = L1 + 1 /\ Tr[l].same
-TraceNext == TReGrid \/ TReset \/ TIndex \/ TCentre \/ TSetOrigin \/ TSetEnd \/ TStep \/ TEndCast
+TGeneric == IsEvent("generic") /\ UNCHANGED <<givars, rcvars>> /\ GenericOK(Tr[l])
+TraceNext == TGeneric \/ TReGrid \/ TReset \/ TIndex \/ TCentre \/ TSetOrigin \/ TSetEnd \/ TStep \/ TEndCast
 TraceSpec == TraceInit /\ [][TraceNext]_tvars
 ConstructorOK == Constructed(first, ncells)
 TraceAccepted == TLCGet("stats").diameter - 1 = Len(Tr)
